@@ -53,6 +53,16 @@ def job_rpy(ctx, lo, hi):
                     ctx.expect(d <= tol, f'{route}: angles round-trip', key, out, ang, tol)
                 ctx.seen(('rpy', ir, ip, iy))
                 ctx.cls('rpy')
+        # the conversion METHODS called directly, all results of this roll kept alive and judged afterwards (a result may not be
+        # overwritten by a later conversion)
+        kept = []
+        for (key, ang, qref, tol) in rows[::5]:
+            kept.append((key, ang, qref, Quaternion().from_rpy(ang.copy()), Quaternion().from_angles(ang.copy()), O.rpy2q(ang.copy())))
+        for key, ang, qref, r1, r2, r3 in kept:
+            for nm, rr_ in (('Quaternion.from_rpy', r1), ('Quaternion.from_angles', r2), ('rpy2q', r3)):
+                ra = np.asarray(rr_, float)
+                e = min(np.abs(ra - qref).max(), np.abs(ra + qref).max()) if ra.shape == (4,) else float('inf')
+                ctx.expect(e <= 1e-12, f'{nm}: result kept while other conversions are made still equals qz(yaw) qy(pitch) qx(roll)', key, ra, qref, 1e-12)
         # array route, all rows of this roll at once
         Ang = np.array([r[1] for r in rows])
         QA = QuaternionArray(rpy=Ang.copy())
@@ -270,6 +280,11 @@ def job_seq(ctx, lo, hi):
             key = f'angles={list(angs)}'
             ctx.close(np.asarray(DCM(x=angs[0], y=angs[1], z=angs[2])), rq.Rx(angs[0]) @ rq.Ry(angs[1]) @ rq.Rz(angs[2]), 1e-12,
                       'DCM(x=, y=, z=) = Rx Ry Rz', key)
+            ctx.close(np.asarray(DCM(x=math.degrees(angs[0]), y=math.degrees(angs[1]), z=math.degrees(angs[2]), degrees=True)),
+                      rq.Rx(angs[0]) @ rq.Ry(angs[1]) @ rq.Rz(angs[2]), 1e-12, 'DCM(x=, y=, z=, degrees=True) = Rx Ry Rz', key)
+            for pair in (('x', 'y'), ('y', 'z'), ('x', 'z')):
+                kw = {pair[0]: math.degrees(angs[0]), pair[1]: math.degrees(angs[1]), 'degrees': True}
+                ctx.close(np.asarray(DCM(**kw)), ELEM[pair[0]](angs[0]) @ ELEM[pair[1]](angs[1]), 1e-12, 'DCM(two of x=, y=, z=, degrees=True) = ordered product', f'{key} axes={pair}')
             ctx.close(np.asarray(DCM(rpy=list(angs))), rq.Rz(angs[0]) @ rq.Ry(angs[1]) @ rq.Rx(angs[2]), 1e-12,
                       "DCM(rpy=) = rot_seq('zyx') ordered product", key)
     ctx.sample({'sequence': _sequences()[lo], 'angles': SEQ_ANG[:len(_sequences()[lo])]})
